@@ -151,14 +151,14 @@ ALLCMDS = ["incr", "decr", "set_np", "restart", "reload", "kill", "signal", "sto
            "numprocesses"]
 PROFILES.update({
     "count": {"singleton": True, "cmds": ["incr", "decr", "set_np", "restart", "reload", "kill"], "steps": 30},
-    "stop": {"cmds": ["stop", "kill", "restart", "start", "incr", "decr", "set_np", "status"], "stubborn": 0.5,
+    "stop": {"cmds": ["stop", "stop", "kill", "restart", "start", "incr", "decr", "set_np", "set_opt", "set_opt", "status"], "stubborn": 0.5,
              "kcall_deaths": 0.6, "hooks": ["after_spawn", "before_stop", "after_stop"], "norespawn": True},
-    "term": {"stop_children": True, "stop_signal": True, "fork": 0.15, "stubborn": 0.5,
+    "term": {"killover": 0.6, "Gs": [0.0, 0.2, 0.3, 0.5, 0.8], "stop_children": True, "stop_signal": True, "fork": 0.15, "stubborn": 0.5,
              "cmds": ["stop", "kill", "decr", "restart", "reload", "signal"], "instant": 0.2},
     "acct": {"watchers": 3, "badnb": 0.05, "hooks": ["before_spawn", "after_spawn", "before_start", "after_start"], "faults": 0.3,
              "kcall_deaths": 0.6, "cmds": ["start", "stop", "incr", "decr", "kill", "restart", "list", "numprocesses"],
              "norespawn": True},
-    "overlap": {"cmds": ["kill", "kill", "signal", "stop", "restart", "reload", "start", "incr", "status", "list",
+    "overlap": {"Gs": [0.2, 0.3, 0.5, 1.0], "cmds": ["kill", "kill", "signal", "stop", "restart", "reload", "start", "incr", "status", "list",
                          "numprocesses"], "stubborn": 0.6, "partial": 0.5, "steps": 20},
     "events": {"cmds": ["incr", "decr", "set_np", "reload", "kill", "stop", "start", "restart"], "kcall_deaths": 0.5,
                "steps": 30},
